@@ -231,6 +231,16 @@ func (prop) Generate(rng *core.Rand, tier string, emit0 func(string)) {
 			emit(fmt.Sprintf("as L1:p:-;R;L2:di:%s%d;R;L3:d:-", ft, k))
 		}
 	}
+	// LEFTOVER STATE: an autosave is killed at each of its operations (the temp file is then absent,
+	// empty, or complete but not renamed); the next process performs one or more successful loads,
+	// each of which must end with the file equal to its config; then `--resume` must get the latest
+	for k := 1; k <= 3; k++ {
+		emit(fmt.Sprintf("as L1:d:K%d;L2:d:-;U;L3:p:-;U", k))                 // during the very first autosave
+		emit(fmt.Sprintf("as L1:d:-;L2:p:K%d;L3:d:-;L4:p:-;U;L5:d:-;R;U", k)) // during a later one
+		emit(fmt.Sprintf("as L1:p:-;U;L2:d:K%d;U;L3:di:-;L3:di:-;U", k))      // in a resumed process
+		emit(fmt.Sprintf("as L1:d:-;L2:p:F%d;L3:d:-;U;L4:p:-", k))            // a failing operation instead of a death
+	}
+	emit("as U;L1:d:-;U;U;L2:n:-;U")
 	// ---- autosave, random histories
 	asCase := func(withFault bool) {
 		n := 2 + ras.Intn(7)
@@ -240,7 +250,7 @@ func (prop) Generate(rng *core.Rand, tier string, emit0 func(string)) {
 		var loaded []string
 		for i := 0; i < n; i++ {
 			if i > 0 && ras.Chance(1, 5) {
-				evs = append(evs, "R")
+				evs = append(evs, ras.Pick([]string{"R", "R", "U"}))
 				faultUsed = false
 				continue
 			}
@@ -281,6 +291,9 @@ func (prop) Generate(rng *core.Rand, tier string, emit0 func(string)) {
 				loaded = append(loaded, strings.Replace(head, "f", "", 1))
 			}
 		}
+		if ras.Chance(1, 3) {
+			evs = append(evs, "U")
+		}
 		emit("as " + strings.Join(evs, ";"))
 	}
 	for c := 0; c < nAS; c++ {
@@ -292,7 +305,7 @@ func (prop) Generate(rng *core.Rand, tier string, emit0 func(string)) {
 
 	// ---- malformed
 	bad := []string{"ca", "ca ", "ca x", "ca l", "ca l:", "ca l:0cb", "ca l:3xx", "ca m:-", "ca l:-;", "ca l:-;;l:-", "ca l:-3cb", "ca d:xx", "ca c:rc", "ca c:rc>zz", "ca d:", "ca c:rc>rk>ik",
-		"as", "as L", "as L1", "as L1:d", "as L1:q:-", "as L1:d:K0", "as L1:d:X1", "as L1:dd:-", "as Lx:d:-", "as R;", "as L1:d:K1;L2:d:F1",
+		"as", "as L", "as L1", "as L1:d", "as L1:q:-", "as L1:d:K0", "as L1:d:X1", "as L1:dd:-", "as Lx:d:-", "as R;", "as L1:d:K1;L2:d:F1", "as U:", "as u", "as L1:d:-;UU",
 		"zz l:-", "ca l:- extra", "as L1:dff:-", "ca l:1cb:2", "as L1:d:-:3"}
 	for _, b := range bad {
 		emit(b)
